@@ -200,8 +200,29 @@ func isInside(inner, outer ast.Node) bool {
 
 // isTypeOfTypeParam matches reflect.TypeOf((*T)(nil)).Elem() with T a type parameter of fi.
 func isTypeOfTypeParam(info *types.Info, e ast.Expr, fi *FuncInfo) bool {
+	e = resolveLocal(info, fi.Decl.Body, e, 2)
 	c, ok := unparen(e).(*ast.CallExpr)
 	if !ok {
+		return false
+	}
+	// reflect.TypeFor[T]() / a generic helper of the repository that returns it for its own type parameter
+	if targ := typeArgOfCall(info, c); targ != nil {
+		if _, isTP := targ.(*types.TypeParam); isTP {
+			cal := callee(info, c)
+			if isFunc(cal, "reflect", "", "TypeFor") {
+				return true
+			}
+			if cal != nil && cal.Origin() != nil {
+				cal = cal.Origin()
+			}
+			if theWorld != nil {
+				if t := theWorld.Decls[cal]; t != nil && t.Decl.Body != nil && len(t.Decl.Body.List) == 1 {
+					if ret, ok := t.Decl.Body.List[0].(*ast.ReturnStmt); ok && len(ret.Results) == 1 {
+						return isTypeOfTypeParam(t.Pkg.TypesInfo, ret.Results[0], t)
+					}
+				}
+			}
+		}
 		return false
 	}
 	sel, ok := unparen(c.Fun).(*ast.SelectorExpr)
@@ -483,4 +504,25 @@ func ruleDeferredAddTotal(w *World, r *Report, rule string) {
 	r.Check(bad == "", rule, fi.Name()+"#error-exits", fi.Decl.Pos(), true,
 		"deferred insertion rejects only a nil provider; cycles are left to the typed error of DetectCycles",
 		"AddProviderDeferred returns an error at "+bad+" for a non-nil provider: Build wraps it as a plain graph error, so a dependency problem detected there is not classifiable as a CircularDependencyError")
+}
+
+// typeArgOfCall: the single explicit type argument of a generic call f[T](), or nil.
+func typeArgOfCall(info *types.Info, c *ast.CallExpr) types.Type {
+	var id *ast.Ident
+	switch f := unparen(c.Fun).(type) {
+	case *ast.IndexExpr:
+		switch x := unparen(f.X).(type) {
+		case *ast.Ident:
+			id = x
+		case *ast.SelectorExpr:
+			id = x.Sel
+		}
+	}
+	if id == nil {
+		return nil
+	}
+	if inst, ok := info.Instances[id]; ok && inst.TypeArgs != nil && inst.TypeArgs.Len() == 1 {
+		return inst.TypeArgs.At(0)
+	}
+	return nil
 }
